@@ -692,6 +692,9 @@ int abtmc_main(int argc, char **argv, const abtmc_driver *d)
         int st0 = run_exec(xr, cfg, dev, ndev, bound, horizon, 0, 1, 0, errfd,
                            opt_wall * 5);
         uint64_t h0 = xr->tracehash;
+        uint64_t th0[ABTMC_MAXT], to0[ABTMC_MAXT];
+        memcpy(th0, xr->thash, sizeof(th0));
+        memcpy(to0, xr->tops, sizeof(to0));
         char key0[96], msg0[1024];
         snprintf(key0, sizeof(key0), "%s", xr->key);
         snprintf(msg0, sizeof(msg0), "%s", xr->msg);
@@ -711,8 +714,17 @@ int abtmc_main(int argc, char **argv, const abtmc_driver *d)
         json_str(stdout, xr->obs);
         printf(",\"ops\":%llu,\"choice_points\":%u,\"deterministic\":%s}\n",
                (unsigned long long)xr->nops, xr->ncp, det ? "true" : "false");
-        if (!det)
+        if (!det) {
+            fprintf(stderr, "replay mismatch: status %d/%d key %s/%s\n", st0, st1,
+                    key0, xr->key);
+            for (int i = 0; i < ABTMC_MAXT; i++)
+                fprintf(stderr, "  t%d: hash %llx / %llx  ops %llu / %llu\n", i,
+                        (unsigned long long)th0[i],
+                        (unsigned long long)xr->thash[i],
+                        (unsigned long long)to0[i],
+                        (unsigned long long)xr->tops[i]);
             return 3;
+        }
         if (st1 == ABTMC_ST_ENGINE)
             return 3;
         return st1 == ABTMC_ST_OK ? 0 : 1;
